@@ -143,8 +143,9 @@ theorem mathSection_step (T : PTables) (fuel : Nat) (t : Tok) (rest : Buf) (star
   have hstop : ["$".toList, "\\)".toList].contains t.txt = false := by
     rw [hc]
     simp [hd]
+  have hv : isVerb t = false := by simp [isVerb, hk]
   rw [expandMathSection.eq_2, hsk]
-  simp only [hk, hstop, hi, hs, reduceCtorEq, beq_iff_eq, Bool.false_eq_true, if_false]
+  simp only [hk, hv, hstop, hi, hs, reduceCtorEq, beq_iff_eq, Bool.false_eq_true, if_false]
   show M.bind' M.get _ st = _
   simp only [M.bind', M.get]
   have hm : isMathTok t = false := by simp [isMathTok, hk]
@@ -206,8 +207,10 @@ theorem mathSection_body (T : PTables) (st : PState) (start : Nat) (d2 : Tok) (r
       rw [hd.txt]; decide
     have hp : (d2.kind == Kind.par) = false := by
       rcases hd.kind with hk | hk <;> simp [hk]
+    have hv : isVerb d2 = false := by
+      rcases hd.kind with hk | hk <;> simp [isVerb, hk]
     rw [List.nil_append, expandMathSection.eq_2, hsk]
-    simp only [hp, hstop, Bool.false_eq_true, if_false, if_true, mathToks, List.filter_nil,
+    simp only [hp, hv, hstop, Bool.false_eq_true, if_false, if_true, mathToks, List.filter_nil,
       List.map_nil, List.append_nil]
     rw [finFilter_math out ho]
     rfl
